@@ -110,8 +110,31 @@ def default_cases(O, pid, n_quick=300, n_thorough=4000, cfg_fn=F.config_variants
     cases += wide_cases(opts)
     cases += feature_mix_cases(opts)
     cases += receiver_table_cases(opts)
+    cases += lone_operation_cases(opts)
     cases += finding_cases(pid, opts)
     return cases
+
+
+def lone_operation_cases(opts=None):
+    """Files whose ONLY operation sits in one particular position -- instrumentable or excluded (parameter defaults of arrows and functions,
+    class members, computed keys, patterns, arrow bodies that are normalised): whether the file is modified, what is counted and what is
+    emitted must agree there too, and nothing else in the file can make up for it."""
+    wraps = ["function f(a, b) { return (x = OP) => x; }", "function f(a, b) { return (x = OP) => { return x; }; }", "function f(a, b) { const g = ({ p = OP }) => p; return g; }",
+             "function f(a, b) { return ([q = OP]) => [q]; }", "const g = (x = OP) => x;", "function f(a, b, x = OP) { return x; }", "function f(a, b) { return function (x = OP) { return x; }; }",
+             "class K { p = OP; }", "class K { static p = OP; }", "class K { [OP]() {} }", "class K { m(x = OP) {} }", "function f(a, b) { return async (x = OP) => x; }",
+             "function f(a, b) { return () => OP; }", "function f(a, b) { return (x) => (y = OP) => y; }", "label: { (x = OP) => x; }", "if (a) { var h = (x = OP) => x }",
+             "for (const g = (x = OP) => x;;) break;", "try { } catch ({ m = OP }) { }", "function f(a, b) { return { g: (x = OP) => x }; }", "function f(a, b) { return { get [OP]() { return 1 } }; }",
+             "export default (x = OP) => x", "switch (a) { case OP: break }", "function f(a, b) { return a ? (x = OP) => x : null; }", "function* g(a, b) { yield (x = OP) => x; }",
+             "function f(a, b) { return tag`${(x = OP) => x}`; }", "function f(a, b) { return typeof OP; }", "const o = { m(x = OP) { return x } };", "function f(a, b) { for (const k in OP) ; }",
+             "function f(a, b) { return ({ [OP]: q }) => q; }", "function f(a, b) { let { [OP]: q = 1 } = a; }", "function f(a, b) { return new.target ? 1 : (() => OP)(); }",
+             "const v = OP;", "function f(a, b) { return class { static { this.q = OP } }; }", "function f(a, b) { return (x = (y = OP) => y) => x; }"]
+    ops = ["a + b", "`<${a}>`", "a.trim()", "(a += b)", "a.concat(b)", "'x' + 1", "String.prototype.trim.call(a)", "a?.trim()"]
+    out = []
+    for wi, w in enumerate(wraps):
+        for oi, op in enumerate(ops):
+            out.append({"id": "lone-%d-%d" % (wi, oi), "config": vlib.default_config(telemetryVerbosity=("DEBUG", "INFORMATION", "OFF")[(wi + oi) % 3]),
+                        "calls": [{"code": w.replace("OP", op) + "\n", "file": "lone.js"}], "opts": dict(opts or {})})
+    return out
 
 
 def receiver_table_cases(opts=None):
